@@ -539,6 +539,85 @@ def check_redefine(ctx):
                 ctx.violation('%s: %s: %s gives %s, reference arrangement %s' % (what, arr, RD_DOCS[i], str(r['probes'][i])[:100], str(ref['probes'][i])[:100]), rep)
 
 
+# ------------------------------------------------------------------ a document used both as chameleon include and as import of no namespace
+CH_FILES = {
+    'cham.xsd': '<xs:schema xmlns:xs="http://www.w3.org/2001/XMLSchema"><xs:simpleType name="Code"><xs:restriction base="xs:string">'
+                '<xs:pattern value="[A-Z]{3}"/></xs:restriction></xs:simpleType><xs:element name="code" type="Code"/></xs:schema>',
+    'a.xsd': '<xs:schema xmlns:xs="http://www.w3.org/2001/XMLSchema" targetNamespace="urn:a" xmlns:a="urn:a" elementFormDefault="qualified">'
+             '<xs:include schemaLocation="%(cham)s"/><xs:element name="item" type="a:Code"/></xs:schema>',
+    'main.xsd': '<xs:schema xmlns:xs="http://www.w3.org/2001/XMLSchema" targetNamespace="urn:m" xmlns:m="urn:m" xmlns:a="urn:a" '
+                'elementFormDefault="qualified">%(imports)s<xs:element name="root"><xs:complexType><xs:sequence><xs:element ref="a:item"/>'
+                '<xs:element ref="code"/><xs:element name="local" type="Code"/></xs:sequence></xs:complexType></xs:element></xs:schema>',
+}
+CH_DOCS = ['<m:root xmlns:m="urn:m" xmlns:a="urn:a"><a:item>ABC</a:item><code>DEF</code><m:local>GHI</m:local></m:root>',
+           '<m:root xmlns:m="urn:m" xmlns:a="urn:a"><a:item>abc</a:item><code>DEF1</code><m:local>GHI</m:local></m:root>',
+           '<m:root xmlns:m="urn:m" xmlns:a="urn:a"><a:item>ABC</a:item><a:code>DEF</a:code><m:local>GHI</m:local></m:root>']
+
+
+def subject_chameleon(case):
+    import warnings
+    import xmlschema
+    warnings.simplefilter('ignore')
+    d = os.path.join(str(common.BUILD), 'tmp', 'c09_ch_%d_%d' % (os.getpid(), case['n']))
+    shutil.rmtree(d, ignore_errors=True)
+    os.makedirs(d)
+    cls = xmlschema.XMLSchema11 if case['version'] == '1.1' else xmlschema.XMLSchema10
+    imps = {'a': '<xs:import namespace="urn:a" schemaLocation="%s"/>' % case['a_loc'],
+            'n': '<xs:import schemaLocation="%s"/>' % case['cham_loc']}
+    try:
+        for name, text in CH_FILES.items():
+            with open(os.path.join(d, name), 'w') as f:
+                f.write(text % {'cham': case['inc_loc'], 'imports': ''.join(imps[k] for k in case['order'])})
+        try:
+            s = cls(os.path.join(d, 'main.xsd'))
+        except Exception as e:  # noqa
+            return {'exc': common.exc_class(e) + ': ' + ' '.join(str(e).split())[:160]}
+        out = observe(s, CH_DOCS)
+        skip = ('{http://www.w3.org/2001/XMLSchema', '{http://www.w3.org/XML/1998/namespace}', '{http://www.w3.org/2001/XMLSchema-instance}')
+        out['globals']['all namespaces'] = sorted('%s %s' % (type(c).__name__, c.name) for c in s.maps.iter_globals()
+                                                  if c.name and not c.name.startswith(skip))
+        out['globals']['documents'] = {ns: sorted(os.path.basename(x.url or '') for x in lst) for ns, lst in s.maps.namespaces.items()
+                                       if ns in ('', 'urn:a', 'urn:m')}
+        return out
+    finally:
+        shutil.rmtree(d, ignore_errors=True)
+
+
+def check_chameleon(ctx):
+    cases = []
+    for version in ('1.0', '1.1'):
+        ref = {'version': version, 'order': 'na', 'a_loc': 'a.xsd', 'cham_loc': 'cham.xsd', 'inc_loc': 'cham.xsd'}
+        group = [ref, dict(ref, order='an'), dict(ref, order='an', cham_loc='./cham.xsd'), dict(ref, order='an', inc_loc='./cham.xsd'),
+                 dict(ref, order='na', a_loc='x/../a.xsd', inc_loc='x/../cham.xsd'), dict(ref, order='an', a_loc='./a.xsd', cham_loc='x/../cham.xsd')]
+        cases.append(group)
+    flat = [dict(c, n=i) for i, c in enumerate(c for g in cases for c in g)]
+    impl = common.pool_map(subject_chameleon, flat, procs=4)
+    k = 0
+    for group in cases:
+        res = impl[k:k + len(group)]
+        k += len(group)
+        ref = res[0]
+        for c, r in zip(group[1:], res[1:]):
+            ctx.count(('chameleon', json.dumps(c, sort_keys=True)), nontrivial=True)
+            ctx.dist('arrangement', 'chameleon include + import of no namespace')
+            rep = {'kind': 'chameleon', 'case': c, 'reference': group[0], 'files': CH_FILES}
+            arr = 'imports in the order %s, locations %s / %s / %s (XSD %s)' % (
+                '+'.join({'a': 'urn:a', 'n': 'no namespace'}[x] for x in c['order']), c['a_loc'], c['cham_loc'], c['inc_loc'], c['version'])
+            if ('exc' in r) != ('exc' in ref) or 'harness_exception' in r:
+                ctx.violation('a document included as chameleon and imported for no namespace: %s %s, the reference arrangement %s'
+                              % (arr, 'fails: ' + str(r.get('exc') or r.get('harness_exception')), 'fails' if 'exc' in ref else 'builds'), rep)
+            elif 'exc' in r:
+                continue
+            elif r['globals'] != ref['globals']:
+                diff = {kk: v for kk, v in r['globals'].items() if v != ref['globals'][kk]}
+                ctx.violation('a document included as chameleon and imported for no namespace: %s gives other global components %s (reference %s)'
+                              % (arr, str(diff)[:160], str({kk: ref['globals'][kk] for kk in diff})[:160]), rep)
+            elif r['probes'] != ref['probes']:
+                i = next(i for i, (a, b) in enumerate(zip(r['probes'], ref['probes'])) if a != b)
+                ctx.violation('a document included as chameleon and imported for no namespace: %s: %s gives %s, reference %s'
+                              % (arr, CH_DOCS[i], str(r['probes'][i])[:100], str(ref['probes'][i])[:100]), rep)
+
+
 def gen(ctx):
     import random
     rng = ctx.rng
@@ -572,6 +651,7 @@ def run(ctx):
         evaluate(ctx, gen(ctx))
         check_corpus(ctx)
         check_redefine(ctx)
+        check_chameleon(ctx)
     finally:
         cleanup()
     ctx.assumptions = ['component construction is a deterministic function of a declaration and of the components it references '
@@ -586,6 +666,8 @@ def replay(ctx, case):
             check_corpus(ctx)
         elif case.get('kind') == 'redefine':
             check_redefine(ctx)
+        elif case.get('kind') == 'chameleon':
+            check_chameleon(ctx)
         else:
             evaluate(ctx, [case['case']])
     finally:
